@@ -26,8 +26,21 @@ pub fn check_point(ctx: &Ctx, lat: f64, lon: f64) -> Check {
     let (tc_e, tc_o) = (TCS[(v % 13) as usize], TCS[((v >> 8) % 13) as usize]);
     let (alt_e, alt_o) = (((v >> 16) & 0xfff) as u16, if (v >> 28) & 1 == 0 { ((v >> 16) & 0xfff) as u16 } else { ((v >> 32) & 0xfff) as u16 });
     let icao = 0x100000 + ((v >> 40) & 0xfffff) as u32;
-    let (fe, me) = airborne_via_decoder(icao, tc_e, alt_e, 0, e.yz, e.xz).map_err(|x| Failure::new("c04:frame-rejected", x, rep.clone()))?;
-    let (fo, mo) = airborne_via_decoder(icao, tc_o, alt_o, 1, o.yz, o.xz).map_err(|x| Failure::new("c04:frame-rejected", x, rep.clone()))?;
+    let (fe, mut me) = airborne_via_decoder(icao, tc_e, alt_e, 0, e.yz, e.xz).map_err(|x| Failure::new("c04:frame-rejected", x, rep.clone()))?;
+    let (fo, mut mo) = airborne_via_decoder(icao, tc_o, alt_o, 1, o.yz, o.xz).map_err(|x| Failure::new("c04:frame-rejected", x, rep.clone()))?;
+    // a third of the pairs carry, in the reports' own latitude / longitude fields, a position left by an earlier
+    // decoding pass (decode_position and the bindings write it back): the answer may not depend on it
+    match (v >> 58) % 6 {
+        0 => (me.latitude, me.longitude) = (Some((lat + 6.0).clamp(-90.0, 90.0)), Some(lon - 17.0)),
+        1 => {
+            (me.latitude, me.longitude) = (Some(0.0), Some(0.0));
+            (mo.latitude, mo.longitude) = (Some(-lat), Some(f64::NAN));
+        }
+        _ => {}
+    }
+    if (v >> 58) % 6 < 2 {
+        ctx.class("a report carried a position from an earlier decoding pass");
+    }
     if me.lat_cpr != e.yz || me.lon_cpr != e.xz || mo.lat_cpr != o.yz || mo.lon_cpr != o.xz {
         return Err(Failure::new("c04:cpr-fields-not-transported", format!("encoded ({},{})/({},{}) decoded ({},{})/({},{})", e.yz, e.xz, o.yz, o.xz, me.lat_cpr, me.lon_cpr, mo.lat_cpr, mo.lon_cpr), rep));
     }
@@ -99,7 +112,7 @@ pub fn check_points(ctx: &Ctx, pts: &[(f64, f64)]) -> Check {
 }
 
 pub fn run(ctx: &Ctx) {
-    ctx.set_rule("true points from 10 strata (latitude-count boundaries within 2.5 bins of every latitude-zone edge; uniform sphere, +-50 grid steps around each of the 58 NL transitions, +-87 deg +-3 m and exactly on the grid, poles, equator, even/odd latitude-zone edges, special meridians); each encoded even+odd by an independent DO-260B encoder, wrapped in DF17 frames (every airborne type code, any altitude code, any address), decoded by Message::try_from and airborne_position in both orders; equal parities: the same report twice, and two different reports (second point 1 m to 1000 km away, other altitude and type code) in both orders. Plus sequences of related points (a whole number of latitude zones apart, then the first again) on one thread. Non-trivial = an ordered pair that returned a position; distinct by (YZ0,XZ0,YZ1,XZ1,order).");
+    ctx.set_rule("true points from 10 strata (latitude-count boundaries within 2.5 bins of every latitude-zone edge; uniform sphere, +-50 grid steps around each of the 58 NL transitions, +-87 deg +-3 m and exactly on the grid, poles, equator, even/odd latitude-zone edges, special meridians); each encoded even+odd by an independent DO-260B encoder, wrapped in DF17 frames (every airborne type code, any altitude code, any address), decoded by Message::try_from and airborne_position in both orders; a third of the pairs carry a stale position in the reports' own latitude / longitude fields (the answer may not depend on it); equal parities: the same report twice, and two different reports (second point 1 m to 1000 km away, other altitude and type code) in both orders. Plus sequences of related points (a whole number of latitude zones apart, then the first again) on one thread. Non-trivial = an ordered pair that returned a position; distinct by (YZ0,XZ0,YZ1,XZ1,order).");
     ctx.assume("independent CPR encoder and closed-formula NL (pinned by the published example pair and table values)");
     ctx.assume("cases whose recovered latitude is within 1e-7 deg of an inexact NL transition are excluded (counted); +-87 is exact and not excluded");
     let cases = ctx.tier.pick(640_000u32, 8_000_000u32);
